@@ -74,6 +74,40 @@ def grid_cases(ctx):
     return cases
 
 
+def run_project_grid(ctx):
+    """the same grid when the times are given to the Project constructor (framework + databook + sim_start / sim_end / sim_dt in one call): the results of the run
+    are reported at start + k*dt up to the first point >= end, whatever years the databook covers"""
+    import atomica as at
+
+    r = ctx.rng
+    for name in (["udt", "sir"] if ctx.quick else ["udt", "sir", "tb_simple", "hypertension"]):
+        try:
+            P0 = at.demo(name, do_run=False)
+        except Exception:
+            continue
+        first = float(P0.data.tvec[0])
+        for _ in range(ctx.n(3, 12)):
+            s = first + r.choice([2, 1.5, 5, -3])
+            e = s + r.choice([4, 7.5, 12])
+            dt = r.choice([1.0, 0.5, 0.25, 0.2])
+            key = {"api": "Project.__init__", "demo": name, "start": s, "end": e, "dt": dt}
+            try:
+                P = at.Project(framework=P0.framework, databook=P0.data.to_spreadsheet(), sim_start=s, sim_end=e, sim_dt=dt, do_run=False)
+                tv = np.asarray(P.settings.tvec, dtype=float)
+                res = P.run_sim(P.parsets[0], store_results=False)
+                rt = np.asarray(res.t, dtype=float)
+            except Exception as ex:
+                ctx.brk("correspondence", f"Project(..., sim_start={s}, sim_end={e}, sim_dt={dt}) on {name} raised {type(ex).__name__}: {str(ex)[:160]}", case=key)
+                continue
+            n_model, last_model = core.drive([f"grid {q(s)} {q(e)} {q(dt)}"])[0].split()
+            ctx.count("grid.project_constructor")
+            ctx.case(key, nontrivial=True)
+            ok = len(rt) == int(n_model) and abs(rt[0] - s) <= 1e-9 and abs(rt[-1] - float(unq(last_model))) <= 1e-9 and len(tv) == len(rt)
+            if not ok:
+                ctx.violation({"api": "Project.__init__", "case": "constructor-times-not-honoured"},
+                              f"{name}: Project(framework, databook, sim_start={s}, sim_end={e}, sim_dt={dt}) runs on {len(rt)} points from {rt[0]!r} to {rt[-1]!r}; the requested grid has {n_model} points from {s!r} to {float(unq(last_model))!r}", {"case": key, "kind": "project_grid"})
+
+
 def run_grid(ctx):
     import atomica as at
 
@@ -188,6 +222,7 @@ def run_settings_ops(ctx):
 
 def run(ctx):
     run_grid(ctx)
+    run_project_grid(ctx)
     run_settings_ops(ctx)
     # conversion half: mode B on generated models (stage "resolve": parameter value -> per-step fraction -> people) + documented-conversion oracle
     engine_corr.run_stream(ctx, PROPERTY, ctx.n(60, 2000), focus=lambda r: {"functions": r.random() < 0.5, **({"npops": r.choice([2, 3]), "aggregation": True, "agg_weight_par": 0.4} if r.random() < 0.35 else {})})
@@ -202,6 +237,13 @@ def replay(ctx, data):
     c = (data.get("replay") or {}).get("case") or (data.get("broken") or [{}])[0].get("case")
     if isinstance(c, dict) and c.get("closed"):
         return closed_corr.replay_case(c)
+    if (data.get("replay") or {}).get("kind") == "project_grid":
+        import atomica as at
+        P0 = at.demo(c["demo"], do_run=False)
+        P = at.Project(framework=P0.framework, databook=P0.data.to_spreadsheet(), sim_start=c["start"], sim_end=c["end"], sim_dt=c["dt"], do_run=False)
+        tv = P.settings.tvec
+        print("settings.tvec:", len(tv), tv[0], tv[-1], "requested", c)
+        return 0 if abs(tv[0] - c["start"]) < 1e-9 and tv[-1] >= c["end"] - 1e-9 else 1
     tv = at.ProjectSettings(sim_start=c["start"], sim_end=c["end"], sim_dt=c["dt"]).tvec
     print("impl:", len(tv), tv[:3], tv[-1], "spacing", np.diff(tv)[:1])
     print("model:", core.drive([f"grid {q(c['start'])} {q(c['end'])} {q(c['dt'])}"]))
